@@ -549,6 +549,31 @@ def l2(rec, op, case, impl_out, model_out, same):
     return same
 
 
+def same_function_by_points(drv, before, after):
+    """Decides equality of two curves on their common interval from finitely many exact evaluations of the Cox-de Boor definition
+    (driver `curve.def`): on every non-empty span of the merged knot vector both curves are rational functions with numerator and
+    denominator of degree <= p, so the cross-multiplied difference has degree <= 2p and vanishes identically iff it vanishes at
+    2p+1 distinct points (p+1 for polynomial curves).  Used where the span-table oracle `rf.eq` does not apply (two different knot
+    values closer than the library's tolerance).  Returns None when equal, else a parameter at which the curves differ."""
+    Ub, Ua = list(before[0]), list(after[0])
+    p = max(kv_info(Ub)[0], kv_info(Ua)[0])
+    rational = before[2] is not None or after[2] is not None
+    need = (2 * p + 1) if rational else (p + 1)
+    cuts = sorted(set(Ub) | set(Ua))
+    us = []
+    for a, b in zip(cuts[:-1], cuts[1:]):
+        us += [a + (b - a) * F(j, need) for j in range(need)]
+    us.append(cuts[-1])
+    x = drv.call("curve.def", *curve_args(*before), us)
+    y = drv.call("curve.def", *curve_args(*after), us)
+    if x[0] != "ok" or y[0] != "ok":
+        return ("oracle-error", ser(x if x[0] != "ok" else y))
+    for u, vx, vy in zip(us, tup(x[1]), tup(y[1])):
+        if vx != vy:
+            return (str(u), ser(vx), ser(vy))
+    return None
+
+
 def l3(rec, name):
     rec.count("L3", "decided")
     rec.count("L3oracles", name)
